@@ -225,3 +225,29 @@ Proof.
     destruct (N.leb_spec v a) as [GE|GE]; destruct (N.leb_spec a v) as [LE|LE];
     try lia; rewrite ?negb_involutive; repeat split; reflexivity.
 Qed.
+
+(** [group_matches] characterised completely (C03): a group lists an event IFF some unconditional name of the
+    group resolves to the event's number, or some conditional entry of the group resolves to the event's number and
+    EVERY condition of that one entry holds - AND inside an entry, OR across entries, and nothing else *)
+Lemma group_matches_iff ai ev g :
+  group_matches ai ev g = true <->
+  ((exists name num, In name (g_names g) /\ lookup_name (ai_table ai) name = Some num /\ ev_nr ev = sysnum ai num) \/
+   (exists nc num, In nc (g_nwc g) /\ lookup_name (ai_table ai) (nc_name nc) = Some num /\ ev_nr ev = sysnum ai num /\
+                   forall c, In c (nc_conds nc) -> rel (c_op c) (arg ev (c_arg c)) (c_val c) = true)).
+Proof.
+  split.
+  - exact (match_is_for_own_syscall ai ev g).
+  - intros [[name [num [Hin [Hl He]]]]|[nc [num [Hin [Hl [He Hc]]]]]].
+    + unfold group_matches. apply orb_true_iff. left. apply existsb_exists. exists name. split; [exact Hin|].
+      unfold name_matches. rewrite Hl. apply N.eqb_eq. exact He.
+    + exact (conditional_entry_matches ai ev g nc num Hin Hl He Hc).
+Qed.
+
+(** one condition that does not hold blocks its own entry - whatever the other conditions of the entry say *)
+Lemma failing_condition_blocks_entry ai ev nc c :
+  In c (nc_conds nc) -> rel (c_op c) (arg ev (c_arg c)) (c_val c) = false -> nwc_matches ai ev nc = false.
+Proof.
+  intros Hin Hf. unfold nwc_matches. apply andb_false_iff. right.
+  destruct (list_holds ev (nc_conds nc)) eqn:E; [|reflexivity].
+  unfold list_holds in E. rewrite forallb_forall in E. specialize (E c Hin). unfold cond_holds in E. congruence.
+Qed.
